@@ -1,6 +1,7 @@
 #!/usr/bin/env python3
 """Reduces Go race-detector logs to unordered pairs of top frames inside /repo."""
-import glob, re, sys
+import glob, os, re, sys
+REPO = os.environ.get('VERIF_REPO', '/repo').rstrip('/') + '/'
 
 
 def norm(fn):
@@ -27,7 +28,7 @@ def parse(path_glob):
                 for i in range(0, len(lines) - 1, 2):
                     fn = lines[i].strip()
                     loc = lines[i + 1].strip()
-                    if loc.startswith('/repo/'):
+                    if loc.startswith(REPO):
                         top = norm(fn.split('(')[0] if fn.endswith('()') else fn)
                         top = norm(fn[:-2] if fn.endswith('()') else fn)
                         break
